@@ -21,7 +21,8 @@ CONSTANTS Closed,
           Weak     \* set of weakening flags ({} = faithful model); each flag switches one mechanism of
                    \* the implementation off, TLC must then find a counter-example (vacuity test of the
                    \* invariants, source of replay scenarios): "AnyDoneOrder", "CloseBeforeDrain",
-                   \* "SpawnAllThenWait", "SendFirstRemoteOnly", "NoSkipCheck", "SinkOnlyIfDriver" (= F1), "NoDrain" (= F12), "NoWaitAll" (= F16)
+                   \* "SpawnAllThenWait", "SendFirstRemoteOnly", "NoSkipCheck", "SinkOnlyIfDriver" (= F1), "NoDrain" (= F12), "NoWaitAll" (= F16),
+                   \* "StreamAtDone" (streaming IPs sent like ordinary ones, after the task), "NoFifoRemove"
 
 Inst == JsonDeserialize("inst.json")
 
@@ -54,6 +55,9 @@ FileOutsTab   == [n \in PNames |-> IF IsCmd(n) THEN SeqPorts(n, PR(n).outs)
                                    ELSE IF PR(n).kind = "src" \/ IsPass(n) THEN {PortId(n, "out")} ELSE {}]
 ParamOutsTab  == [n \in PNames |-> IF PR(n).kind = "psrc" THEN {PortId(n, "out")}
                                    ELSE IF PR(n).kind = "pcomb" THEN {PortId(n, PR(n).params[i]) \o ">" : i \in DOMAIN PR(n).params} ELSE {}]
+\* out-ports declared as streaming ({os:..}): the IP is handed over when the task is taken, the bytes go through a FIFO
+StreamOutsTab == [n \in PNames |-> IF IsCmd(n) THEN SeqPorts(n, PR(n).streams) ELSE {}]
+StreamOutsOf(n) == StreamOutsTab[n]
 InPortsOf(n)    == InPortsTab[n]
 ParamPortsOf(n) == ParamPortsTab[n]
 FileOutsOf(n)   == FileOutsTab[n]
@@ -150,7 +154,10 @@ OutStream(op) ==
 
 ExpTasks == UNION {{[proc |-> n, k |-> k, key |-> TaskKey(n, ExpIns(n, k), ExpParams(n, k)),
                      ins |-> ExpIns(n, k), params |-> ExpParams(n, k),
-                     outs |-> {OutItem(n, PR(n).outs[j], ExpIns(n, k), ExpParams(n, k)) : j \in DOMAIN PR(n).outs}]
+                     outs |-> {OutItem(n, PR(n).outs[j], ExpIns(n, k), ExpParams(n, k)) :
+                                 j \in {i \in DOMAIN PR(n).outs : PortId(n, PR(n).outs[i]) \notin StreamOutsOf(n)}},
+                     streams |-> {OutItem(n, PR(n).outs[j], ExpIns(n, k), ExpParams(n, k)) :
+                                 j \in {i \in DOMAIN PR(n).outs : PortId(n, PR(n).outs[i]) \in StreamOutsOf(n)}}]
                     : k \in 1..NSets(n)} : n \in CmdRun}
 ExpFiles == UNION {t.outs : t \in ExpTasks}
 ExpExecKeys == {t.key : t \in {x \in ExpTasks : x.outs \cap Pre = {}}}
@@ -197,11 +204,14 @@ VARIABLES
   failed,    \* keys of tasks whose failure stopped the workflow
   execs,     \* ghost: task key -> number of command executions
   emitted,   \* ghost: out-port -> sequence of items handed to the port
-  recvd      \* ghost: in-port -> sequence of <<from, item>> received
+  recvd,     \* ghost: in-port -> sequence of <<from, item>> received
+  strm       \* streaming: [fifos: items whose FIFO exists, wopen: items whose producer command has started (writer opened),
+             \*             ropen: items whose consumer command has started (reader opened)]  - wopen / ropen only grow
 
 vars == <<phase, q, ups, em, relayed, rpc, ctpc, ctleft, ctgot, ctopen, offer, tasksnil, tk, ts, started,
-          sout, cl, tokens, final, failed, execs, emitted, recvd>>
+          sout, cl, tokens, final, failed, execs, emitted, recvd, strm>>
 
+StrmInit == [fifos |-> {}, wopen |-> {}, ropen |-> {}]
 EmItems(e) == IF e \in Relays THEN relayed[e] ELSE EmItemsTab[e]
 AllOuts == UNION {OutsOf(n) : n \in RunSet} \cup {EmOut(e) : e \in FeedIds}
 
@@ -229,6 +239,7 @@ Init ==
   /\ execs = <<>>
   /\ emitted = [op \in AllOuts |-> <<>>]
   /\ recvd = [port \in AllInPorts |-> <<>>]
+  /\ strm = StrmInit
 
 (************************ channel primitives ******************************)
 \* index i of q[port] may be received: Closed - the head; acceptor - the oldest entry of its sender
@@ -245,7 +256,7 @@ Active(e) == IF e \in FeedIds THEN phase \in {"init", "running"} ELSE Running
 StartProcs == /\ phase = "init"
               /\ phase' = "running"
               /\ UNCHANGED <<q, ups, em, relayed, rpc, ctpc, ctleft, ctgot, ctopen, offer, tasksnil, tk, ts, started,
-                             sout, cl, tokens, final, failed, execs, emitted, recvd>>
+                             sout, cl, tokens, final, failed, execs, emitted, recvd, strm>>
 
 (************************ emitters: sources, param sources, feeders *******)
 EmSendBegin(e, r) ==
@@ -261,14 +272,14 @@ EmSendBegin(e, r) ==
                                                       ELSE [@ EXCEPT !.left = left]]
                  ELSE [em EXCEPT ![e] = [@ EXCEPT !.left = left, !.wait = r]]
   /\ UNCHANGED <<phase, ups, relayed, rpc, ctpc, ctleft, ctgot, ctopen, offer, tasksnil, tk, ts, started, sout, cl,
-                 tokens, final, failed, execs, recvd>>
+                 tokens, final, failed, execs, recvd, strm>>
 
 EmSendDone(e, r) ==     \* acceptor mode only
   /\ ~Closed /\ Active(e) /\ em[e].wait = r /\ r # ""
   /\ em' = [em EXCEPT ![e] = IF @.left = {} THEN [@ EXCEPT !.i = @ + 1, !.left = EmRemotes(e), !.wait = ""]
                                             ELSE [@ EXCEPT !.wait = ""]]
   /\ UNCHANGED <<phase, q, ups, relayed, rpc, ctpc, ctleft, ctgot, ctopen, offer, tasksnil, tk, ts, started, sout, cl,
-                 tokens, final, failed, execs, emitted, recvd>>
+                 tokens, final, failed, execs, emitted, recvd, strm>>
 
 \* a relay (one-port ParamCombinator) receives until its port is closed, then starts emitting
 RelayRecv(e, i) ==
@@ -285,7 +296,7 @@ RelayRecv(e, i) ==
         /\ em' = [em EXCEPT ![e].st = "run", ![e].eof = TRUE]
         /\ UNCHANGED <<q, recvd, relayed>>
   /\ UNCHANGED <<phase, ups, rpc, ctpc, ctleft, ctgot, ctopen, offer, tasksnil, tk, ts, started, sout, cl,
-                 tokens, final, failed, execs, emitted>>
+                 tokens, final, failed, execs, emitted, strm>>
 
 EmFinish(e) ==          \* all items sent: deferred CloseAllOutPorts / pop.Close
   /\ Active(e) /\ em[e].st = "run" /\ em[e].wait = "" /\ em[e].i > Len(EmItems(e))
@@ -293,7 +304,7 @@ EmFinish(e) ==          \* all items sent: deferred CloseAllOutPorts / pop.Close
   /\ em' = [em EXCEPT ![e].st = "closing"]
   /\ cl' = [cl EXCEPT ![e] = {<<EmOut(e), r>> : r \in EmRemotes(e)}]
   /\ UNCHANGED <<phase, q, ups, relayed, rpc, ctpc, ctleft, ctgot, ctopen, offer, tasksnil, tk, ts, started, sout,
-                 tokens, final, failed, execs, emitted, recvd>>
+                 tokens, final, failed, execs, emitted, recvd, strm>>
 
 \* CloseConnection: atomic under the in-port's closeLock
 CloseConn(x, op, r) ==
@@ -307,7 +318,7 @@ CloseConn(x, op, r) ==
      ELSE /\ rpc' = IF cl'[x] = {} THEN [rpc EXCEPT ![x] = "done"] ELSE rpc
           /\ em' = em
   /\ UNCHANGED <<phase, q, relayed, ctpc, ctleft, ctgot, ctopen, offer, tasksnil, tk, ts, started, sout,
-                 tokens, final, failed, execs, emitted, recvd>>
+                 tokens, final, failed, execs, emitted, recvd, strm>>
 
 (************************ cmd processes: Run loop and createTasks *********)
 OutPairsTab == [n \in CmdRun |-> {<<op, r>> \in FileOutsOf(n) \X AllInPorts : r \in RemotesOf(op)}]
@@ -326,7 +337,7 @@ ProcStart(n) ==
           /\ ctleft' = [ctleft EXCEPT ![n] = PhasePorts(n, FirstPhase(n))]
           /\ phase' = phase
   /\ UNCHANGED <<q, ups, em, relayed, ctgot, ctopen, offer, tasksnil, tk, ts, started, sout, cl,
-                 tokens, final, failed, execs, emitted, recvd>>
+                 tokens, final, failed, execs, emitted, recvd, strm>>
 
 \* one receive of createTasks (file or param port); i = 0 stands for "closed"
 CTRecv(n, port, i) ==
@@ -346,7 +357,7 @@ CTRecv(n, port, i) ==
      IN /\ ctpc' = [ctpc EXCEPT ![n] = nxt]
         /\ ctleft' = [ctleft EXCEPT ![n] = IF left # {} THEN left ELSE PhasePorts(n, nxt)]
   /\ UNCHANGED <<phase, ups, em, relayed, rpc, offer, tasksnil, tk, ts, started, sout, cl,
-                 tokens, final, failed, execs, emitted>>
+                 tokens, final, failed, execs, emitted, strm>>
 
 AfterOffer(n) == IF InPortsOf(n) = {} /\ ParamPortsOf(n) = {} THEN "end" ELSE FirstPhase(n)
 GotIns(n)    == [i \in DOMAIN PR(n).ins    |-> ctgot[n][PortId(n, PR(n).ins[i])]]
@@ -373,29 +384,69 @@ CTOffer(n) ==
                   /\ ctleft' = [ctleft EXCEPT ![n] = PhasePorts(n, AfterOffer(n))]
                   /\ ctopen' = [ctopen EXCEPT ![n] = TRUE]
   /\ UNCHANGED <<q, ups, em, relayed, rpc, tasksnil, started, sout, cl,
-                 tokens, final, failed, execs, emitted, recvd>>
+                 tokens, final, failed, execs, emitted, recvd, strm>>
 
+StreamItems == UNION {{emitted[op][i] : i \in DOMAIN emitted[op]} : op \in UNION {StreamOutsOf(n) : n \in CmdRun}}
 TKey(n, k)  == tk[n][k].key
-TOuts(n, k) == {tk[n][k].out[o] : o \in DOMAIN tk[n][k].out}
+TOuts(n, k)    == {tk[n][k].out[o] : o \in {x \in DOMAIN tk[n][k].out : PortId(n, x) \notin StreamOutsOf(n)}}   \* files
+TStreams(n, k) == {tk[n][k].out[o] : o \in {x \in DOMAIN tk[n][k].out : PortId(n, x) \in StreamOutsOf(n)}}      \* FIFO items
+TInItems(n, k) == {tk[n][k].ins[i] : i \in DOMAIN tk[n][k].ins}
+StreamPairsTab == [n \in CmdRun |-> IF "StreamAtDone" \in Weak THEN {}
+                                      ELSE {pr \in {<<op, r>> \in FileOutsOf(n) \X AllInPorts : r \in RemotesOf(op)} : pr[1] \in StreamOutsOf(n)}]
 TOut(n, k, port) == tk[n][k].out[port]
 PortNameTab == [op \in UNION {FileOutsOf(n) : n \in {m \in PNames : IsCmd(m)}} |->
                   CHOOSE o \in ToSet(PR(Owner(op)).outs) : PortId(Owner(op), o) = op]
 PortName(n, op) == PortNameTab[op]
 
 \* Run loop receives the task, starts its goroutine, appends it to the FIFO ("task.take")
+\* With streaming out-ports the loop first creates the FIFOs and sends the streaming IPs ("sendfifo"), then starts the goroutine.
 TakeTask(n) ==
   /\ Running /\ rpc[n] = "loop" /\ offer[n] # <<>>
   /\ LET k == Head(offer[n]) IN
-     /\ ts' = [ts EXCEPT ![n][k] = IF Closed THEN "begun" ELSE "spawned"]   \* closed model: ExBegin fused
-     /\ started' = [started EXCEPT ![n] = Append(@, k)]
+     IF StreamPairsTab[n] = {}
+     THEN /\ ts' = [ts EXCEPT ![n][k] = IF Closed THEN "begun" ELSE "spawned"]   \* closed model: ExBegin fused
+          /\ started' = [started EXCEPT ![n] = Append(@, k)]
+          /\ UNCHANGED <<rpc, sout, emitted, strm>>
+     ELSE /\ ts' = [ts EXCEPT ![n][k] = "fifo"]
+          /\ started' = started
+          /\ rpc' = [rpc EXCEPT ![n] = "sendfifo"]
+          /\ sout' = [sout EXCEPT ![n] = [left |-> StreamPairsTab[n], wait |-> <<>>, n |-> k]]
+          /\ strm' = [strm EXCEPT !.fifos = @ \cup TStreams(n, k)]
+          /\ emitted' = [op \in AllOuts |-> IF op \in StreamOutsOf(n)
+                                             THEN Append(emitted[op], TOut(n, k, PortName(n, op)))
+                                             ELSE emitted[op]]
   /\ offer' = [offer EXCEPT ![n] = Tail(@)]
   /\ IF Closed
      THEN /\ ctpc' = [ctpc EXCEPT ![n] = AfterOffer(n)]
           /\ ctleft' = [ctleft EXCEPT ![n] = PhasePorts(n, AfterOffer(n))]
           /\ ctopen' = [ctopen EXCEPT ![n] = TRUE]
      ELSE UNCHANGED <<ctpc, ctleft, ctopen>>
-  /\ UNCHANGED <<phase, q, ups, em, relayed, rpc, ctgot, tasksnil, tk, sout, cl,
-                 tokens, final, failed, execs, emitted, recvd>>
+  /\ UNCHANGED <<phase, q, ups, em, relayed, ctgot, tasksnil, tk, cl,
+                 tokens, final, failed, execs, recvd>>
+
+\* the Run loop sends the streaming IP of the task just taken to every remote of the port, then spawns the task
+FifoSent(n) == LET k == sout[n].n IN
+  /\ rpc' = [rpc EXCEPT ![n] = "loop"]
+  /\ ts' = [ts EXCEPT ![n][k] = IF Closed THEN "begun" ELSE "spawned"]
+  /\ started' = [started EXCEPT ![n] = Append(@, k)]
+FifoSendBegin(n, op, r) ==
+  /\ Running /\ rpc[n] = "sendfifo" /\ sout[n].wait = <<>> /\ <<op, r>> \in sout[n].left
+  /\ CanSend(r)
+  /\ q' = [q EXCEPT ![r] = Append(@, <<op, TOut(n, sout[n].n, PortName(n, op))>>)]
+  /\ LET left == sout[n].left \ {<<op, r>>} IN
+     IF Closed
+     THEN /\ sout' = [sout EXCEPT ![n].left = left]
+          /\ IF left = {} THEN FifoSent(n) ELSE UNCHANGED <<rpc, ts, started>>
+     ELSE /\ sout' = [sout EXCEPT ![n].left = left, ![n].wait = <<op, r>>]
+          /\ UNCHANGED <<rpc, ts, started>>
+  /\ UNCHANGED <<phase, ups, em, relayed, ctpc, ctleft, ctgot, ctopen, offer, tasksnil, tk, cl,
+                 tokens, final, failed, execs, emitted, recvd, strm>>
+FifoSendDone(n, op, r) ==     \* acceptor mode only
+  /\ ~Closed /\ Running /\ rpc[n] = "sendfifo" /\ sout[n].wait = <<op, r>>
+  /\ sout' = [sout EXCEPT ![n].wait = <<>>]
+  /\ IF sout[n].left = {} THEN FifoSent(n) ELSE UNCHANGED <<rpc, ts, started>>
+  /\ UNCHANGED <<phase, q, ups, em, relayed, ctpc, ctleft, ctgot, ctopen, offer, tasksnil, tk, cl,
+                 tokens, final, failed, execs, emitted, recvd, strm>>
 
 \* createTasks has stopped: what still arrives on the process's ports is received and dropped
 \* (drainInPorts, fix F12); switched off by the weakening flag "NoDrain"
@@ -405,24 +456,25 @@ CTDrain(n, port, i) ==
   /\ q' = [q EXCEPT ![port] = DropAt(@, i)]
   /\ recvd' = [recvd EXCEPT ![port] = Append(@, q[port][i])]
   /\ UNCHANGED <<phase, ups, em, relayed, rpc, ctpc, ctleft, ctgot, ctopen, offer, tasksnil, tk, ts, started, sout, cl,
-                 tokens, final, failed, execs, emitted>>
+                 tokens, final, failed, execs, emitted, strm>>
 
 CTEnd(n) ==           \* createTasks returns, deferred close(ch)
   /\ Running /\ ctpc[n] = "end"
   /\ ctpc' = [ctpc EXCEPT ![n] = "closed"]
   /\ UNCHANGED <<phase, q, ups, em, relayed, rpc, ctleft, ctgot, ctopen, offer, tasksnil, tk, ts, started, sout, cl,
-                 tokens, final, failed, execs, emitted, recvd>>
+                 tokens, final, failed, execs, emitted, recvd, strm>>
 
 TasksClosed(n) ==     \* Run loop sees the closed task channel
   /\ Running /\ rpc[n] = "loop" /\ ctpc[n] = "closed" /\ offer[n] = <<>> /\ ~tasksnil[n]
   /\ tasksnil' = [tasksnil EXCEPT ![n] = TRUE]
   /\ UNCHANGED <<phase, q, ups, em, relayed, rpc, ctpc, ctleft, ctgot, ctopen, offer, tk, ts, started, sout, cl,
-                 tokens, final, failed, execs, emitted, recvd>>
+                 tokens, final, failed, execs, emitted, recvd, strm>>
 
 (************************ tasks *******************************************)
 SetTs(n, k, s) == ts' = [ts EXCEPT ![n][k] = s]
-TaskUnch == UNCHANGED <<q, ups, em, relayed, rpc, ctpc, ctleft, ctgot, ctopen, offer, tasksnil, tk, started, sout, cl,
-                        emitted, recvd>>
+TaskUnch0 == UNCHANGED <<q, ups, em, relayed, rpc, ctpc, ctleft, ctgot, ctopen, offer, tasksnil, tk, started, sout, cl,
+                         emitted, recvd>>
+TaskUnch == TaskUnch0 /\ UNCHANGED strm
 
 ExBegin(n, k) ==       \* "exec.begin"
   /\ Running /\ k \in DOMAIN ts[n] /\ ts[n][k] = "spawned"
@@ -448,11 +500,17 @@ CmdStart(n, k) ==      \* "cmd.start"
   /\ SetTs(n, k, "running")
   /\ execs' = IF TKey(n, k) \in DOMAIN execs THEN [execs EXCEPT ![TKey(n, k)] = @ + 1]
               ELSE (TKey(n, k) :> 1) @@ execs
-  /\ TaskUnch /\ UNCHANGED <<phase, tokens, final, failed>>
+  /\ strm' = [strm EXCEPT !.wopen = @ \cup TStreams(n, k), !.ropen = @ \cup (TInItems(n, k) \cap StreamItems)]
+  /\ TaskUnch0 /\ UNCHANGED <<phase, tokens, final, failed>>
 
+\* A FIFO is a rendez-vous: open() blocks until the other end is opened too, so neither command can end before the
+\* other one has started (the reader may see end-of-file, and exit, as soon as the writer has closed - before the writer exits).
 CmdEnd(n, k) ==        \* command returned zero ("cmd.end")
   /\ Running /\ k \in DOMAIN ts[n] /\ ts[n][k] = "running"
   /\ FaultOf(TKey(n, k)) \notin CmdFaults
+  /\ TStreams(n, k) \subseteq strm.ropen                                   \* every stream this task writes has found its reader
+  /\ (TInItems(n, k) \cap StreamItems) \subseteq strm.wopen                \* every stream this task reads has found its writer
+  /\ UNCHANGED strm
   /\ IF Closed /\ FaultOf(TKey(n, k)) # "skip_output"
      THEN \* closed model: Publish and Release are local to the task goroutine and fused with CmdEnd
           /\ SetTs(n, k, "doneoffer")
@@ -460,7 +518,7 @@ CmdEnd(n, k) ==        \* command returned zero ("cmd.end")
           /\ tokens' = tokens - PR(n).cores
      ELSE /\ SetTs(n, k, "ended")
           /\ UNCHANGED <<tokens, final>>
-  /\ TaskUnch /\ UNCHANGED <<phase, failed, execs>>
+  /\ TaskUnch0 /\ UNCHANGED <<phase, failed, execs>>
 
 CmdFail(n, k) ==       \* command returned non-zero / was killed -> Fail -> os.Exit(1)
   /\ Running /\ k \in DOMAIN ts[n] /\ ts[n][k] = "running"
@@ -497,12 +555,13 @@ TakeDone(n) ==
      /\ started' = [started EXCEPT ![n] = DropAt(@, j)]
      /\ LET pend == IF "SendFirstRemoteOnly" \in Weak
                      THEN {pr \in OutPairsTab[n] : pr[2] = CHOOSE r \in RemotesOf(pr[1]) : TRUE}
-                     ELSE OutPairsTab[n]
+                     ELSE OutPairsTab[n] \ StreamPairsTab[n]     \* streaming IPs have been sent when the task was taken
         IN /\ sout' = [sout EXCEPT ![n] = [left |-> pend, wait |-> <<>>, n |-> k]]
            /\ rpc' = [rpc EXCEPT ![n] = IF pend = {} THEN "loop" ELSE "sendout"]
-     /\ emitted' = [op \in AllOuts |-> IF op \in FileOutsOf(n)
+     /\ emitted' = [op \in AllOuts |-> IF op \in FileOutsOf(n) \ (IF "StreamAtDone" \in Weak THEN {} ELSE StreamOutsOf(n))
                                         THEN Append(emitted[op], TOut(n, k, PortName(n, op)))
                                         ELSE emitted[op]]
+     /\ strm' = IF "NoFifoRemove" \in Weak THEN strm ELSE [strm EXCEPT !.fifos = @ \ TStreams(n, k)]        \* os.Remove(FifoPath)
   /\ UNCHANGED <<phase, q, ups, em, relayed, ctpc, ctleft, ctgot, ctopen, offer, tasksnil, tk, cl,
                  tokens, final, failed, execs, recvd>>
 
@@ -517,14 +576,14 @@ SendOutBegin(n, op, r) ==
      ELSE /\ sout' = [sout EXCEPT ![n].left = left, ![n].wait = <<op, r>>]
           /\ rpc' = rpc
   /\ UNCHANGED <<phase, ups, em, relayed, ctpc, ctleft, ctgot, ctopen, offer, tasksnil, tk, ts, started, cl,
-                 tokens, final, failed, execs, emitted, recvd>>
+                 tokens, final, failed, execs, emitted, recvd, strm>>
 
 SendOutDone(n, op, r) ==     \* acceptor mode only
   /\ ~Closed /\ Running /\ rpc[n] = "sendout" /\ sout[n].wait = <<op, r>>
   /\ sout' = [sout EXCEPT ![n].wait = <<>>]
   /\ rpc' = [rpc EXCEPT ![n] = IF sout[n].left = {} THEN "loop" ELSE "sendout"]
   /\ UNCHANGED <<phase, q, ups, em, relayed, ctpc, ctleft, ctgot, ctopen, offer, tasksnil, tk, ts, started, cl,
-                 tokens, final, failed, execs, emitted, recvd>>
+                 tokens, final, failed, execs, emitted, recvd, strm>>
 
 RunExit(n) ==          \* loop ends, deferred CloseOutPorts ("proc.exit")
   /\ Running /\ rpc[n] = "loop" /\ tasksnil[n]
@@ -533,7 +592,7 @@ RunExit(n) ==          \* loop ends, deferred CloseOutPorts ("proc.exit")
      /\ cl' = [cl EXCEPT ![n] = pend]
      /\ rpc' = [rpc EXCEPT ![n] = IF pend = {} THEN "done" ELSE "closing"]
   /\ UNCHANGED <<phase, q, ups, em, relayed, ctpc, ctleft, ctgot, ctopen, offer, tasksnil, tk, ts, started, sout,
-                 tokens, final, failed, execs, emitted, recvd>>
+                 tokens, final, failed, execs, emitted, recvd, strm>>
 
 (************************ sink and main ***********************************)
 SinkPorts == (IF SinkUps # {} THEN {SinkIn} ELSE {}) \cup (IF PSinkUps # {} THEN {PSinkIn} ELSE {})
@@ -544,7 +603,7 @@ SinkRecv(port, i) ==
   /\ q' = [q EXCEPT ![port] = DropAt(@, i)]
   /\ recvd' = [recvd EXCEPT ![port] = Append(@, q[port][i])]
   /\ UNCHANGED <<phase, ups, em, relayed, rpc, ctpc, ctleft, ctgot, ctopen, offer, tasksnil, tk, ts, started, sout, cl,
-                 tokens, final, failed, execs, emitted>>
+                 tokens, final, failed, execs, emitted, strm>>
 
 DriverDone == /\ SinkRuns => \A port \in SinkPorts : PortClosed(port)
               /\ Driver # "SINK" => rpc[Driver] = "done"
@@ -556,7 +615,7 @@ MainReturn ==
   /\ Running /\ DriverDone /\ AllProcsDone
   /\ phase' = "returned"
   /\ UNCHANGED <<q, ups, em, relayed, rpc, ctpc, ctleft, ctgot, ctopen, offer, tasksnil, tk, ts, started, sout, cl,
-                 tokens, final, failed, execs, emitted, recvd>>
+                 tokens, final, failed, execs, emitted, recvd, strm>>
 
 Terminated == phase \in {"returned", "failed"} /\ UNCHANGED vars
 NoStates == phase = "none"   \* constraint used when only the constant definitions are wanted
@@ -573,6 +632,7 @@ Next ==
         \/ \E port \in AllInPorts : \E i \in 0..Len(q[port]) : CTRecv(n, port, i)
         \/ \E port \in AllInPorts : \E i \in 1..Len(q[port]) : CTDrain(n, port, i)
         \/ \E op \in AllOuts, r \in AllInPorts : SendOutBegin(n, op, r) \/ SendOutDone(n, op, r)
+        \/ \E op \in StreamOutsOf(n), r \in AllInPorts : FifoSendBegin(n, op, r) \/ FifoSendDone(n, op, r)
         \/ \E k \in DOMAIN ts[n] :
               \/ ExBegin(n, k) \/ ExSkip(n, k) \/ Acquire(n, k) \/ CmdStart(n, k) \/ CmdEnd(n, k)
               \/ CmdFail(n, k) \/ EnsureFail(n, k) \/ Publish(n, k) \/ Release(n, k)
@@ -611,6 +671,15 @@ C05_NoEarly == phase = "returned" =>
    /\ \A n \in CmdRun : rpc[n] = "done"
    /\ tokens = 0
 C05_Live == <>(phase \in {"returned", "failed"})
+
+\* C17 at this grain: nothing is ever a file at a streaming path, and no FIFO is left when Run returns
+C17_NoFile == \A n \in CmdRun : \A k \in DOMAIN tk[n] : TStreams(n, k) \cap final = {}
+C17_NoFifoLeft == phase = "returned" => strm.fifos = {}
+\* no command that reads or writes a stream has ended without its peer having started
+C17_Rendezvous == \A n \in CmdRun : \A k \in DOMAIN ts[n] :
+                     ts[n][k] \in {"ended", "published", "doneoffer", "done"} /\ TKey(n, k) \in DOMAIN execs
+                     => /\ TStreams(n, k) \subseteq strm.ropen
+                        /\ (TInItems(n, k) \cap StreamItems) \subseteq strm.wopen
 
 \* C06 at this grain: running commands never need more slots than exist
 RunningCores == LET S == {<<n, k>> \in UNION {{n} \X DOMAIN ts[n] : n \in CmdRun} :
